@@ -162,7 +162,7 @@ fn write_replay_file(cfg: &Config, unit: &Unit, v: &Violation, rp: &Replay, n: u
     let dir = format!("{}/{}", cfg.replay_dir, cfg.property);
     let _ = std::fs::create_dir_all(&dir);
     let safe: String = unit.id.chars().map(|c| if c.is_ascii_alphanumeric() || c == '-' || c == '_' || c == '.' { c } else { '_' }).collect();
-    let path = format!("{}/{}-{}.json", dir, safe, n);
+    let path = format!("{}/{}-{}{}.json", dir, safe, n, if cfg!(debug_assertions) { "" } else { "-release" });
     let j = J::obj(vec![
         ("property", J::s(cfg.property.clone())), ("unit", J::s(unit.id.clone())), ("kind", J::s(v.kind.clone())), ("label", J::s(v.label.clone())),
         ("detail", J::s(v.detail.clone())), ("inputs", model_json(&v.model)),
@@ -227,7 +227,7 @@ fn worker(units: &[Unit], sched: &(Mutex<Sched>, Condvar), cfg: &Config) {
         let mut panic_violation: Option<Violation> = None;
         if let PathEnd::Panic(msg) = &end {
             if unit.panic_is_violation {
-                let (r, model, raw) = sym::with(|c| c.query(&[], true));
+                let (r, model, raw) = sym::with(|c| if c.concolic.is_some() { (Sat::Sat, c.sample_model(), String::from("concolic sample")) } else { c.query(&[], true) });
                 let (dec, smt) = sym::with(|c| (c.decisions.clone(), c.solver.last_query.clone()));
                 if r != Sat::Unsat { panic_violation = Some(Violation { label: format!("panic: {}", msg), kind: "panic".into(), decisions: dec, model, model_raw: raw, smt, detail: msg.clone() }); }
             }
